@@ -13,7 +13,8 @@ from .algebra import rat, angle_of, result_kind, close_num, expected_of
 mpf = mpmath.mpf
 TOL = mpf(10) ** -35
 CONCRETE_PARAMS = {"scale"}
-SKIP = {"abs", "square", "np_sqrt", "np_cbrt", "np_power", "neg", "divide"}     # operator / ufunc forms: not SymPy API under test here
+SKIP = {"abs", "square", "np_sqrt", "np_cbrt", "np_power", "neg", "divide", "scale2D", "scale3D", "neg2D", "neg3D",
+        "transform2D_partial", "transform3D_partial"}     # operator / ufunc forms: not SymPy API under test here
 _cache = {}
 
 
